@@ -57,13 +57,16 @@ Ordinal(n) == [k |-> "ordinal", props |-> <<P(S_value, VInt(n)), P(S_one, VStr(<
                  P(S_other, VStr(<<37, 116, 104>>, TRUE))>>]
 NoMarkupN == [k |-> "nomarkup", raw |-> <<121, 91, 120, 93, 233>>, close |-> "name"]   \* y[x]é
 NoMarkupA == [k |-> "nomarkup", raw |-> <<91, 122, 32>>, close |-> "all"]
+\* open forms: [select value=g g="h%" j=zz]z[/select] and [plural value=5 one=y other="%é"]y[x][/]
+SelectOpen == [k |-> "ropen", rk |-> "select", props |-> Select.props, raw |-> <<122>>, close |-> "name"]
+PluralOpenA == [k |-> "ropen", rk |-> "plural", props |-> Plural5.props, raw |-> <<121, 91, 120, 93>>, close |-> "all"]
 SelectBad == [k |-> "select", props |-> <<P(S_value, VStr(<<103>>, FALSE)), P(<<106>>, VStr(<<122>>, FALSE))>>]
 
 AlphaQ == {Ch(121), Ch(32), Ch(233), Ch(128512), [k |-> "esc", c |-> 91],
            OpenA, Close(N1), OpenB, Close(N2), [k |-> "closeall"],
-           SelfC, SelfCNoTrim, Select, NoMarkupN, Plural1}
+           SelfC, SelfCNoTrim, Select, NoMarkupN, Plural1, SelectOpen}
 AlphaT == AlphaQ \cup {Ch(8364), Ch(9), [k |-> "esc", c |-> 93], OpenC, Close(N3),
-                       Plural5, Ordinal(22), Ordinal(113), NoMarkupA}
+                       Plural5, Ordinal(22), Ordinal(113), NoMarkupA, PluralOpenA}
 \* C15: whitespace of every kind at the edges and inside markers, unclosed and stray
 \* markers, failing replacement, malformed fragments (end of input inside a marker,
 \* missing '=', missing value)
